@@ -310,7 +310,8 @@ def oracle(prog, verdict, log):
     fails = []
     stats = {"gives_immediate": 0, "gives_blocked": 0, "takes_ready": 0, "takes_waited": 0, "selects_immediate": 0,
              "selects_waited": 0, "close_wakes": 0, "received": 0, "nil_results": 0, "losing_give_delivered": 0,
-             "deadlocks": 0, "errors": 0, "stale_tasks_in_runq": 0, "cancelled_fibers": 0}
+             "deadlocks": 0, "errors": 0, "stale_tasks_in_runq": 0, "cancelled_fibers": 0, "kept_checks": 0,
+             "kept_checks_select": 0}
     try:
         ev = parse_log(log)
     except Exception as e:  # malformed log is a result too
@@ -344,6 +345,38 @@ def oracle(prog, verdict, log):
                 fails.append(("waiting-reader-with-items", "%s: channel %d has a live pending reader %r and items %r" % (where, c, lr, ch["items"])))
             if lr and lw:
                 fails.append(("reader-and-writer-both-waiting", "%s: channel %d has live reader %r and live writer %r" % (where, c, lr, lw)))
+
+    def check_kept(st, where):
+        """registration_kept on the implementation: a fiber whose operation began and has not returned, and whose sched_id
+        is still the one it had when the operation began (it has not been scheduled since), is registered - entries
+        carrying that sched_id - exactly as its operation says: reader/writer, channel and mode; nothing lost, nothing
+        added.  (Selects naming a channel twice are the known finding SELF_MATCH and are skipped, as in the theorem.)"""
+        for f, (i, bst, bidx) in open_op.items():
+            op = fibers[f][i]
+            if f >= len(st["s"]) or f >= len(bst["s"]) or st["s"][f] != bst["s"][f]:
+                continue
+            k = op[0]
+            if k == "g":
+                if bst["chans"][op[1]]["closed"]:
+                    continue     # the give raised: the fiber is dead, not suspended
+                want = {("w", op[1], "W")}
+            elif k == "t":
+                want = {("r", op[1], "R")}
+            elif k in "sr":
+                if len(set(cl[1] for cl in op[1])) != len(op[1]):
+                    continue
+                want = set(("r", cl[1], "r") if cl[0] == "t" else ("w", cl[1], "w") for cl in op[1])
+                stats["kept_checks_select"] += 1
+            elif k == "y":
+                want = set()
+            else:
+                continue
+            have = set((q, c, m) for c, ch in st["chans"].items() for q in "rw" for (pf, ps, m) in ch[q]
+                       if pf == f and ps == st["s"][f])
+            stats["kept_checks"] += 1
+            if have != want:
+                fails.append(("registration-not-kept", "%s: fiber %d suspended in op %d (%s) with sched_id %d unchanged is registered as %r, "
+                              "its operation says %r" % (where, f, i, op_tok(op), st["s"][f], sorted(have), sorted(want))))
 
     def receive(f, i, c, x, idx):
         stats["received"] += 1
@@ -386,11 +419,13 @@ def oracle(prog, verdict, log):
         if e[0] in "LF":
             last_state = e[1]
             check_state(e[1], e[0])
+            check_kept(e[1], "%s@%d" % (e[0], idx))
             continue
         if e[0] == "B":
             _, f, i, st = e
             last_state = st
             check_state(st, "B %d %d" % (f, i))
+            check_kept(st, "B %d %d" % (f, i))
             for c0, ch0 in st["chans"].items():
                 mine = [x for x in ch0["r"] + ch0["w"] if x[0] == f and live(x, st)]
                 if mine:
